@@ -313,7 +313,7 @@ func Main(t *testing.T, s Spec) {
 	ks := loadKnown(s.ID)
 
 	if envReplay != "" {
-		replay(t, s, st)
+		replay(t, s, st, ks)
 		return
 	}
 
@@ -400,7 +400,7 @@ func IsReplay() bool { return envReplay != "" }
 
 // replay executes the case stored in a failure file (or a bare case file) and
 // reports the verdict on stdout as a line "VF-REPLAY result=<pass|fail> runs=<n> failed=<k> symptom=<s>".
-func replay(t *testing.T, s Spec, st *stats) {
+func replay(t *testing.T, s Spec, st *stats, ks []known) {
 	b, err := os.ReadFile(envReplay)
 	if err != nil {
 		t.Fatalf("replay: %v", err)
@@ -439,7 +439,13 @@ func replay(t *testing.T, s Spec, st *stats) {
 	if failed > 0 {
 		res = "fail"
 	}
+	kid, regions := "", ""
+	if last != nil {
+		kid = matchKnown(ks, last)
+		regions = strings.Join(last.Regions, ",")
+	}
 	fmt.Printf("VF-REPLAY property=%s result=%s runs=%d failed=%d symptom=%s message=%q\n", s.ID, res, n, failed, sym, msg)
+	fmt.Printf("VF-REPLAY-KNOWN known=%q regions=%q\n", kid, regions)
 }
 
 func derefCase(c interface{}) interface{} {
